@@ -7,6 +7,12 @@ VERIF = os.path.dirname(os.path.dirname(os.path.abspath(__file__)))
 ALL = [f"C{i:02d}" for i in range(1, 21)]
 
 CLAIMS = {
+    "C13": dict(
+        text="PARTIAL proof + execution. Proved in Coq: for the magic of every final release the writer reproduces, every 32-bit timestamp/size and every payload, the header write_bytecode_file emits is, per that version's format (C06 spec), a timestamp header with exactly those fields (size from 3.3, zero PEP 552 flags from 3.7), and load_module's header parser (C06 model) reads them back and finds the payload where it was put. The payload round trip is decided by execution: sources compiled by the real 2.7, 3.6-3.10, loaded by xdis, written back, compared by the target's own marshal.loads (code-object == and constant kinds) and re-read by xdis; for 3.11+ targets the writer must raise.",
+        note="Trusted: Coq kernel; hand model coq/Model/WriteHeader.v + correspondence on every table magic; the real target interpreters as judges of code-object equality; 'behaves identically' is taken from that equality. The marshal payload writer (marsh.py dump_code2/3) is not modelled in Coq.",
+        technique="Coq round-trip proof of the header + differential execution on the target interpreters",
+        design="7/C13",
+    ),
     "C14": dict(
         text="PARTIAL proof + correspondence. Proved in Coq (unbounded): the 15-bit digit codec of dump_long/load_long - for every non-negative integer the emitted digits denote it, each is a legal marshal digit and the top digit is non-zero (what marshal.c's reader demands). The whole-tree round trip is decided by correspondence only: Model.Marsh.dumps (hand model incl. chunk-to-bytes assembly) vs xdis.marsh.dumps byte for byte; the host's real marshal.loads of those bytes gives back the value (kind and content); xdis.marsh.loads of the host's marshal.dumps(v, 0|1) gives back the value and equals the shared reader model under marsh_cfg. Not yet a theorem: reader(dumps v) = v for all value trees (planned via the C10 reader).",
         note="Trusted: Coq kernel; hand model coq/Model/Marsh.v; harness value generator (ints to 2^450, inf/-0.0/subnormal floats, Latin-1/BMP/astral/lone-surrogate text, 300-item containers, None keys); repr(float)/float(str) are taken from the host. NaN payloads are outside (text floats cannot carry them). Hosts 3.8-3.13 in the thorough tier, 3.12 in quick.",
